@@ -552,3 +552,50 @@ func reachesInstr(a, b ssa.Instruction) bool {
 }
 
 var _ = types.Typ
+
+// heldAt: the locks certainly held when instruction ins executes.  For an instruction of the
+// function under analysis this is the must-set of its lock flow; for an instruction inside a new
+// helper it is the helper's own must-set plus the locks held at every call of the helper (by
+// mutex field: the caller names the object differently).
+func heldAt(ins ssa.Instruction, depth int) lockset {
+	fn := ins.Parent()
+	lf := analyseLocks(fn)
+	out := lf.must[ins].clone()
+	if out == nil {
+		out = lockset{}
+	}
+	if !newHelpers[fn] || len(helperSites[fn]) == 0 || depth > 3 {
+		return out
+	}
+	var common lockset
+	for _, cs := range helperSites[fn] {
+		at := heldAt(cs, depth+1)
+		if common == nil {
+			common = at.clone()
+			continue
+		}
+		for k := range common {
+			found := false
+			for k2 := range at {
+				if lockField(k) == lockField(k2) && k[:2] == k2[:2] {
+					found = true
+				}
+			}
+			if !found {
+				delete(common, k)
+			}
+		}
+	}
+	for k := range common {
+		out[k] = true
+	}
+	return out
+}
+
+// lockField: mode prefix stripped, the trailing ".<mutex field>" of a lock name.
+func lockField(k string) string {
+	if i := strings.LastIndex(k, "."); i >= 0 {
+		return k[i:]
+	}
+	return k
+}
